@@ -103,7 +103,7 @@ theorem QOK.activate {q : Tbl (Time × Addr) Unit} {A : Tbl Addr Node} {a a' : A
     (hn : A.get a = none) (he : a' = a) (ht : n'.inactiveAt = t) : QOK (q.set (t, a) ()) (A.set a' n') := by
   subst he
   intro t' b
-  rw [Tbl.has_set_iff, h t' b, Tbl.get_set]
+  rw [Tbl.has_set_iff_A, h t' b, Tbl.get_set]
   by_cases e : a' = b
   · subst e
     simp only [if_true, Option.some.injEq, hn, Prod.mk.injEq, and_true]
@@ -118,7 +118,7 @@ theorem QOK.activate {q : Tbl (Time × Addr) Unit} {A : Tbl Addr Node} {a a' : A
 theorem QOK.deactivate {q : Tbl (Time × Addr) Unit} {A : Tbl Addr Node} {a : Addr} {n : Node} (h : QOK q A)
     (hg : A.get a = some n) : QOK (q.erase (n.inactiveAt, a)) (A.erase a) := by
   intro t' b
-  rw [Tbl.has_erase_iff, h t' b, Tbl.get_erase]
+  rw [Tbl.has_erase_iff_A, h t' b, Tbl.get_erase]
   by_cases e : a = b
   · subst e
     simp only [if_true, hg, Option.some.injEq, ne_eq, Prod.mk.injEq, and_true, reduceCtorEq, false_and, exists_false, iff_false,
@@ -130,7 +130,7 @@ theorem QOK.deactivate {q : Tbl (Time × Addr) Unit} {A : Tbl Addr Node} {a : Ad
 theorem QOK.erase_none {q : Tbl (Time × Addr) Unit} {A : Tbl Addr Node} {a : Addr} (h : QOK q A)
     (hn : A.get a = none) (t : Time) : QOK (q.erase (t, a)) (A.erase a) := by
   intro t' b
-  rw [Tbl.has_erase_iff, h t' b, Tbl.get_erase]
+  rw [Tbl.has_erase_iff_A, h t' b, Tbl.get_erase]
   by_cases e : a = b
   · subst e
     simp only [if_true, hn, reduceCtorEq, false_and, exists_false, and_false]
@@ -156,7 +156,7 @@ theorem PFP.congr {t : Tbl (Addr × Nat) Unit} {pp pp' : Nat → Option Addr} (h
 theorem PFP.add {t : Tbl (Addr × Nat) Unit} {pp pp' : Nat → Option Addr} {a : Addr} {id : Nat} (h : PFP t pp)
     (hn : pp id = none) (he : ∀ i, pp' i = if id = i then some a else pp i) : PFP (t.set (a, id) ()) pp' := by
   intro b i
-  rw [Tbl.has_set_iff, he i, h b i]
+  rw [Tbl.has_set_iff_A, he i, h b i]
   by_cases e : id = i
   · subst e
     simp only [if_true, Option.some.injEq, Prod.mk.injEq, and_true, hn, reduceCtorEq, or_false]
@@ -173,14 +173,14 @@ theorem Links.mono {t : Tbl (Nat × Addr) Unit} {pp pp' : Nat → Option Addr} {
 theorem Links.set {t : Tbl (Nat × Addr) Unit} {pp : Nat → Option Addr} {hn : Addr → Bool} {i : Nat} {n : Addr} (h : Links t pp hn)
     (hp : (pp i).isSome = true) (hh : hn n = true) : Links (t.set (i, n) ()) pp hn := by
   intro j m hk
-  rw [Tbl.has_set_iff] at hk
+  rw [Tbl.has_set_iff_A] at hk
   rcases hk with e | hk
   · simp only [Prod.mk.injEq] at e; obtain ⟨rfl, rfl⟩ := e; exact ⟨hp, hh⟩
   · exact h j m hk
 
 theorem Links.erase {t : Tbl (Nat × Addr) Unit} {pp : Nat → Option Addr} {hn : Addr → Bool} (h : Links t pp hn) (k : Nat × Addr) :
     Links (t.erase k) pp hn :=
-  fun j m hk => h j m ((Tbl.has_erase_iff _ _ _).mp hk).2
+  fun j m hk => h j m ((Tbl.has_erase_iff_A _ _ _).mp hk).2
 
 /-- `NodeIdx`, component by component. -/
 structure NodeIdxOK (s : State) : Prop where
@@ -233,7 +233,7 @@ theorem NodeIdx.of_nview {s s' : State} (h : nview s' = nview s) (hi : NodeIdx s
   · rw [h7, h8, h9, h1, h2, h3, h4, h5, h6]; exact hi.nodup
 
 /-- Close the nine `Nodup` goals after a step whose tables are built by `set` / `erase`. -/
-macro "nodup_tac" : tactic =>
+local macro "nodup_tac" : tactic =>
   `(tactic| (refine ⟨?_, ?_, ?_, ?_, ?_, ?_, ?_, ?_, ?_⟩ <;>
       repeat' (first | assumption | apply Tbl.nodup_set | apply Tbl.nodup_erase)))
 
